@@ -159,7 +159,7 @@ def rule_qm(ctx):
     C11.invariant_obligations(ScopedCtx(ctx, parser_scope(ctx.facts())), ctx.facts(), rule="QM-INV")
 
 
-def rule_dup_case(ctx):
+def rule_dup_case(ctx, rule="DUP-CASE"):
     """'algorithm repeated in any case' is refused: the text parser detects the repetition by inserting the lower-cased
     algorithm into a map, so it sees every case variant only if that lower-caser is char-wise to_lowercase on every char
     (C12's GUARDXFORM obligations on the same helper); 'two values for one key in any letter case' rests on the key
@@ -171,8 +171,8 @@ def rule_dup_case(ctx):
         raise AnchorError("checksum parser / lower-caser not found by role")
     pb = facts.body(rl["parse"])
     uses = [bb for bb, t in pb.calls() if callee_name(t["callee"]) == rl["lower"]]
-    ctx.ob("DUP-CASE", "the checksum text parser keys its duplicate test by the lower-cased algorithm", len(uses) >= 1, fn=rl["parse"], site=pb.site(uses[0]) if uses else fn_site(facts, rl["parse"]), detail="%d call(s) of %s" % (len(uses), rl["lower"]))
-    lowercase.guardxform_obligations(ctx, facts, rl["lower"], rule="DUP-CASE")
+    ctx.ob(rule, "the checksum text parser keys its entries by the lower-cased algorithm", len(uses) >= 1, fn=rl["parse"], site=pb.site(uses[0]) if uses else fn_site(facts, rl["parse"]), detail="%d call(s) of %s" % (len(uses), rl["lower"]))
+    lowercase.guardxform_obligations(ctx, facts, rl["lower"], rule=rule)
 
 
 RULES = [
